@@ -46,7 +46,7 @@ Section MarlinBatch.
       length pfs = length zs /\
       KZG10.batch_check (mvk_vk vk) ccs zs vs pfs vtape = Ok (b, dr).
   Proof.
-    unfold mbatch_check. intros H.
+    unfold mbatch_check, mbatch_check_m. intros H.
     destruct (combine_groups vk (comm_map cs) (evals_map ev) (group_queries qs) chal) as [[[[ccs zs] vs] rest']| |] eqn:Ec; cbn [bind] in H; try discriminate.
     destruct (Nat.eqb_spec (length pfs) (length zs)) as [El|]; cbn [negb] in H; [|discriminate].
     destruct (KZG10.batch_check (mvk_vk vk) ccs zs vs pfs vtape) as [[b' dr']| |] eqn:Eb; cbn [bind] in H; try discriminate.
@@ -59,7 +59,7 @@ Section MarlinBatch.
     combine_groups vk (comm_map cs) (evals_map ev) (group_queries qs) chal = Ok (ccs, zs, vs, rest) ->
     length pfs <> length zs -> mbatch_check vk cs qs ev pfs chal vtape = Panic.
   Proof.
-    intros Ec Hl. unfold mbatch_check. rewrite Ec. cbn [bind].
+    intros Ec Hl. unfold mbatch_check, mbatch_check_m. rewrite Ec. cbn [bind].
     destruct (Nat.eqb_spec (length pfs) (length zs)); [contradiction|reflexivity].
   Qed.
 End MarlinBatch.
